@@ -128,7 +128,7 @@ def parse_unparse_full : Prop :=
     (`p` is the printable-character table, irrelevant here.) -/
 theorem parse_unparse_partial (p : Nat → Bool) (e : Expr) (h : InFragment e) :
     ∃ n, ∀ fuel, n ≤ fuel → parseRef fuel (toks (display p e)) = some (eraseCtx e, []) := by
-  have := (rt_all p e h).1 1 [] (Nat.le_refl _) (by omega) (Stop.nil _)
+  have := (rt_all p e h).rt 1 [] (Nat.le_refl _) (by omega) (Stop.nil _)
   rw [parseAt_1, List.append_nil] at this
   exact this
 
@@ -137,7 +137,7 @@ theorem parse_unparse_partial (p : Nat → Bool) (e : Expr) (h : InFragment e) :
 theorem parse_unparse_partial_at (p : Nat → Bool) (e : Expr) (h : InFragment e) (lvl : Nat)
     (rest : List Tok) (h1 : 1 ≤ lvl) (h15 : lvl ≤ 15) (hs : Stop lvl rest) :
     ∃ n, ∀ fuel, n ≤ fuel → parseAt lvl fuel (toks (unparse p e lvl) ++ rest) = some (e, rest) :=
-  (rt_all p e h).1 lvl rest h1 h15 hs
+  (rt_all p e h).rt lvl rest h1 h15 hs
 
 /-- `-2 ** -x < (a if b else c) or not y` — in the fragment, with right-associative `**`, unary/power
     interplay, a parenthesised conditional and a boolean chain -/
@@ -155,6 +155,7 @@ mutual
 theorem inFrag_wf_aux : (e : Expr) → inFrag e = true → ∀ pos, wf pos e = true
   | .name _, _, _ => by simp [wf]
   | .const _, _, _ => by simp [wf]
+  | .attribute v _, h, pos => by simp [inFrag] at h; simp [wf, inFrag_wf_aux v h]
   | .boolOp o vs, h, pos => by
     simp [inFrag] at h
     simp [wf, h.1, inFragList_wf_aux vs h.2]
@@ -169,7 +170,7 @@ theorem inFrag_wf_aux : (e : Expr) → inFrag e = true → ∀ pos, wf pos e = t
   | .namedExpr .., h, _ | .lambda .., h, _ | .dict .., h, _ | .set .., h, _ | .listComp .., h, _
   | .setComp .., h, _ | .dictComp .., h, _ | .genExp .., h, _ | .await .., h, _ | .yield .., h, _
   | .yieldFrom .., h, _ | .call .., h, _ | .formattedValue .., h, _ | .joinedStr .., h, _
-  | .attribute .., h, _ | .subscript .., h, _ | .starred .., h, _ | .list .., h, _ | .tuple .., h, _
+  | .subscript .., h, _ | .starred .., h, _ | .list .., h, _ | .tuple .., h, _
   | .slice .., h, _ => by simp [inFrag] at h
 theorem inFragList_wf_aux : (es : List Expr) → inFragList es = true → ∀ pos, wfList pos es = true
   | [], _, _ => by simp [wfList]
